@@ -419,7 +419,7 @@ class IOOpsMixin:
             raise
         if "O-round" in self.oracles:
             oracles_io.check_elast_data(self, client, i, data, self.sc["worlds"][client]["static"], "read_elast_data(input file)")
-        rep = repr((data.vref, data.nv, data.cellmass, [(v.volume, [("%d%d" % k.v, x) for k, x in v.static_elastic_modulus.items()]) for v in data.volumes], data.lattice_parmeters))
+        rep = repr((data.vref, data.nv, data.cellmass, [(v.volume, [(("%d%d" % k.v) if hasattr(k, "v") else repr(k), x) for k, x in v.static_elastic_modulus.items()]) for v in data.volumes], data.lattice_parmeters))
         return {"data": S_sha(rep.encode())}
 
     # ------------------------------------------------------------------ extract / geotherm
